@@ -1070,3 +1070,22 @@ Example ex_lossless :
   /\ parse_lines [wit_line 5 1; LJunk; LEntry (mkJEntry 6 [99] [116] [([98], JInt 18446744073709551615); ([97], JFloat 4609434218613702656); ([98], JNested [91; 93])] 2)]
      = Some [wit_entry 5 1; mkEntry 6 [99] [116] [([97], SFloat 4609434218613702656); ([98], SUtf8 [91; 93])] 2].
 Proof. split; [repeat constructor|vm_compute; reflexivity]. Qed.
+
+(** the history theorem's hypotheses hold on a two-cleanup history with a non-trivial outcome *)
+Example ex_history_kept :
+  let r1 := mkRound ex_wal 2 no_faults in
+  let r2 := mkRound [(log_name 5, WFile [wit_line 9 9]); (log_name 2, WFile [wit_line 9 4])] 6 no_faults in
+  NoDup (names (r_wal r1)) /\ has_aliased_name (r_wal r1) (r_keep r1) = false /\
+  lookup (log_name 0) (snd (fst (run_round RMissing r1))) = None /\
+  Forall (fun r' => name_reused (archive_name 0 5 6) (r_wal r') (r_keep r') = false) [r2] /\
+  root_lookup (archive_name 0 5 6) (run_history RMissing [r1; r2])
+  = Some (AFile (make_archive 0 [wit_entry 5 1; wit_entry 6 2])) /\
+  recover_all (run_history RMissing [r1; r2])
+  = Some [wit_entry 5 1; wit_entry 6 2; wit_entry 7 3; wit_entry 9 4; wit_entry 9 9].
+Proof.
+  cbv zeta. split.
+  { cbn [r_wal ex_wal names map fst]. constructor; [intros [H|[H|[]]]; vm_compute in H; discriminate H|nodup2]. }
+  split; [vm_compute; reflexivity|]. split; [vm_compute; reflexivity|].
+  split; [constructor; [vm_compute; reflexivity|constructor]|].
+  split; vm_compute; reflexivity.
+Qed.
